@@ -2,7 +2,7 @@
 """selftest/run.py [names...]: must-fail self-test.
 
 For every confirmed seeded change under /verif/seeded/<name>/patch.diff (and
-every /verif/selftest/mutants/*.patch) a scratch worktree of /repo's HEAD is
+every /verif/selftest/mutants/*.patch) a scratch copy of /repo's HEAD is
 created outside /repo and /verif, the change is applied, every claimed check is
 run against it (VERIF_REPO, no evidence written), and the worktree is removed.
 Writes selftest/results.json: which checks raise a VIOLATION for which change.
@@ -14,6 +14,7 @@ manifest = json.load(open(os.path.join(V, "MANIFEST.json")))
 claimed = [c["property_id"] for c in manifest["checks"]]
 base = os.environ.get("VERIF_SCRATCH", "/var/tmp")
 wt = os.path.join(base, "verif-selftest-wt")
+src = os.environ.get("VERIF_SELFTEST_SRC", "/repo")
 
 def cases():
     out = []
@@ -37,9 +38,13 @@ def main():
     for name, patch in cases():
         if want and name not in want:
             continue
-        subprocess.call(["git", "-C", "/repo", "worktree", "remove", "--force", wt], stderr=subprocess.DEVNULL)
         shutil.rmtree(wt, ignore_errors=True)
-        subprocess.check_call(["git", "-C", "/repo", "worktree", "add", "-q", "--detach", wt, "HEAD"])
+        os.makedirs(wt)
+        # a plain copy of the source tree's HEAD (VERIF_SELFTEST_SRC, default /repo), outside /repo and /verif
+        if os.path.exists(os.path.join(src, ".git")):
+            subprocess.check_call("git -C %s archive HEAD | tar -x -C %s" % (src, wt), shell=True)
+        else:
+            subprocess.check_call(["rsync", "-a", "--exclude", ".git", src + "/", wt + "/"])
         try:
             r = subprocess.run(["git", "-C", wt, "apply", patch], capture_output=True, text=True)
             if r.returncode != 0:
@@ -60,7 +65,6 @@ def main():
             own = name.split("-")[0]
             print(name, "DETECTED by", sorted(hit) if hit else "NOTHING", "(own property %s: %s)" % (own, "yes" if own in hit else "no"), flush=True)
         finally:
-            subprocess.call(["git", "-C", "/repo", "worktree", "remove", "--force", wt], stderr=subprocess.DEVNULL)
             shutil.rmtree(wt, ignore_errors=True)
             json.dump(results, open(resf, "w"), indent=1, sort_keys=True)
 
